@@ -104,7 +104,28 @@ def rule_nsig(prog: Program, col: Collector) -> None:
                 badk = [kk for kk in ikw if kk not in ipos and ia.kwarg is None]
                 col.check(not badk, where, iref.short, f"nested callable {k}={iref.short} accepts its bound keywords {sorted(ikw)}",
                           construct=f"nested-sig:{key}:{k}", necessity="a keyword bound in the registry that the nested callable does not accept raises TypeError on every call of that entry")
+            elif isinstance(inner, ast.Attribute) and inner.attr in NUMPY_SAMPLERS and (iargs or ikw):
+                # an external sampler (a bound method of a numpy Generator): the consumer calls it with ONE positional argument, the size
+                calls1 = [c for c in ast.walk(ref.node) if isinstance(c, ast.Call) and isinstance(c.func, ast.Name) and c.func.id == k]
+                positional_call = bool(calls1) and all(len(c.args) == 1 and not c.keywords for c in calls1)
+                sig = NUMPY_SAMPLERS[inner.attr]
+                slot = sig[len(iargs)] if len(iargs) < len(sig) else None
+                okb = not positional_call or (slot == "size" and "size" not in ikw and all(kk in sig[len(iargs):] for kk in ikw)
+                                              and not any(kk in sig[:sig.index("size")] for kk in ikw))
+                col.check(okb, where, ref.short,
+                          f"GENERATORS[{key!r}]: {k}={src(v)[:60]} leaves `size` as the next positional parameter of {inner.attr}{tuple(sig)} "
+                          f"(the consumer calls {k}(<size>) positionally)", construct=f"nested-sampler:{key}:{k}",
+                          necessity="distribution parameters bound by keyword leave the FIRST positional slot open: the size tuple passed by the consumer lands on it "
+                                    "(TypeError 'multiple values', or a sampler called with a tuple as its left / low / a parameter) for every call of that CLI choice")
 
+
+# positional signatures of numpy.random.Generator samplers (the prefix up to and including `size`)
+NUMPY_SAMPLERS = {"triangular": ("left", "mode", "right", "size"), "beta": ("a", "b", "size"), "uniform": ("low", "high", "size"),
+                  "normal": ("loc", "scale", "size"), "exponential": ("scale", "size"), "gamma": ("shape", "scale", "size"),
+                  "lognormal": ("mean", "sigma", "size"), "integers": ("low", "high", "size"), "random": ("size",),
+                  "standard_normal": ("size",), "poisson": ("lam", "size"), "binomial": ("n", "p", "size"), "pareto": ("a", "size"),
+                  "power": ("a", "size"), "weibull": ("a", "size"), "chisquare": ("df", "size"), "laplace": ("loc", "scale", "size"),
+                  "logistic": ("loc", "scale", "size"), "geometric": ("p", "size"), "rayleigh": ("scale", "size")}
 
 # --------------------------------------------------------------------------------------
 # N-int
